@@ -57,6 +57,28 @@ def contains_absent(x, ABSENT, depth=0):
     return False
 
 
+def annotations_of(fn, var):
+    """the annotation texts the function gives `var`, in order of appearance (distinct)"""
+    out = []
+
+    def rec(stmts):
+        for s in stmts:
+            if s[0] == "ann" and s[1] == var and s[2] not in out:
+                out.append(s[2])
+            for part in s[1:]:
+                if isinstance(part, list) and part and isinstance(part[0], tuple):
+                    if isinstance(part[0][0], str) and len(part[0]) >= 1 and part[0][0] in (
+                            "assign", "aug", "ann", "expr", "return", "pass", "for", "while", "if", "try", "with", "def",
+                            "class", "import", "from", "break", "continue", "yield", "walrus", "auglist", "raw"):
+                        rec(part)
+                    else:
+                        for h in part:          # handlers of try: (type, name, body)
+                            if isinstance(h, tuple) and len(h) == 3 and isinstance(h[2], list):
+                                rec(h[2])
+    rec(fn["body"])
+    return out
+
+
 def run(chk):
     import ptera
     from ptera import ABSENT
@@ -131,6 +153,9 @@ def run(chk):
                             err_info["function_ok"] = e.function is f or e.function is getattr(mod, fn["name"])
                             try:
                                 err_info["info"] = {k: e.info().get(k) for k in ("provenance", "annotation")}
+                                ann = err_info["info"]["annotation"]
+                                err_info["info"]["annotation"] = "ABSENT" if ann is ABSENT else \
+                                    "int" if ann is int else str(ann)
                             except Exception as ee:
                                 err_info["info"] = "info() failed: %s" % ee
                             raise mod.Boom("DECL:" + e.varname)
@@ -167,6 +192,14 @@ def run(chk):
                         or err_info["info"].get("provenance") != (
                             "argument" if err_info.get("name") in fn["params"] else "body"):
                     chk.violation("oracle", "PteraNameError does not identify the variable / function / provenance: %r" % err_info, replay)
+                else:
+                    # … and exposes the recorded annotation — the declared one when the variable is annotated once
+                    anns = annotations_of(fn, err_info.get("name"))
+                    got_ann = err_info["info"].get("annotation")
+                    want_ann = {"int": "int", "'@T'": "ptera.tag.T"}.get(anns[0]) if len(anns) == 1 else None
+                    if got_ann == "ABSENT" or (want_ann is not None and got_ann != want_ann):
+                        chk.violation("oracle", "PteraNameError for %s exposes the annotation %s; declared: %s" % (
+                            err_info.get("name"), got_ann, anns), replay)
             leak = any(contains_absent(list(e.values()), ABSENT) for e in events if isinstance(e, dict))
             if leak or '{"obj": "Named"}' in json.dumps(got):
                 chk.violation("oracle", "ptera's ABSENT marker reached user-visible data", replay)
